@@ -63,8 +63,8 @@ CHECKS = {
    note='Partial: table values themselves, recombination/charge-transfer rates, statistical distribution of sampled frequencies are outside.', ref='DESIGN.md section 5 C18'),
 
  'C02': dict(engine='B', technique='symbolic execution (z3, IEEE-UF term level) of the real DensitySubGrid::interact on small blocks, every feasible path, against the textbook march written in the harness as specification',
-   text='For every start position, direction sign pattern (axis-aligned and tie cases are separate paths), cell content and target optical depth on blocks of 1-2 cells per axis: which cells are credited what (path length terms, optical-depth chain, estimator and heating increments exactly once per visited cell), stop INSIDE iff the target is reached with the surplus correction, exit classification = walls crossed, final position exactly on the crossed walls, no cell twice, no more cells than a straight line crosses.',
-   note='Term identities are decided instead of the real-number sums with a tolerance. Entry classification INSIDE; hand-over on entry is C03-T2. Blocks > 2 cells per axis, propagate(), compute_optical_depth() outside.', ref='DESIGN.md section 5 C02 / 8.2'),
+   text='For every start position, direction sign pattern (axis-aligned and tie cases are separate paths), cell content and target optical depth on a single-cell block (the two-cell block is not yet dischargeable): which cells are credited what (path length terms, optical-depth chain, estimator and heating increments exactly once per visited cell), stop INSIDE iff the target is reached with the surplus correction, exit classification = walls crossed, final position exactly on the crossed walls, no cell twice, no more cells than a straight line crosses.',
+   note='Term identities are decided instead of the real-number sums with a tolerance. Entry classification INSIDE; hand-over on entry is C03-T2. Multi-cell blocks, propagate(), compute_optical_depth() outside.', ref='DESIGN.md section 5 C02 / 8.2'),
  'C06': dict(engine='B', technique='symbolic execution (z3, IEEE-UF sign and monotonicity axioms) of the real hydrogen-only closed form',
    text='Partial: the H-only neutral fraction is in [1e-14,1] for all positive inputs and exactly 1 without radiation or gas; weakly decreasing in the radiation field in the large-flux branch. The coupled H/He iteration, metal stages and the thermal balance are NOT decided (iterative numerics over exp/pow; convergence statements).',
    note='Only the closed form of IonizationStateCalculator::compute_ionization_state_hydrogen; everything else of C06 is outside.', ref='DESIGN.md section 5 C06'),
